@@ -63,6 +63,8 @@ CANARIES = [
     ("waitloop-tracker-kept", "c08_locks", "_utils/lock_management.py", "                view_arr = _array_tracker.pop(view_arr_id)()", "                view_arr = _array_tracker[view_arr_id]()", r"C08\.release\.iteration\.idle_view_leaves"),
     ("waitloop-flag-not-restored", "c08_locks", "_utils/lock_management.py", "                view_arr.flags.writeable = True\n", "                view_arr.flags.writeable = False\n", r"C08\.release\.iteration\.idle_live_view_made_writeable"),
     ("waitloop-busy-test-inverted", "c08_locks", "_utils/lock_management.py", "            if _array_counter[view_arr_id] > 0:\n", "            if _array_counter[view_arr_id] >= 0:\n", r"C08\.release\.iteration\.(idle_view_leaves|idle_live)"),
+    ("lockset-single-phase", "c08_sets", "_utils/lock_management.py", "    return tuple(\n        lock_arr_writeability(arr)\n        for arr, read_only in zip(arrs, natively_read_only)\n        if not read_only\n    )", "    return tuple(lock_arr_writeability(arr) for arr in arrs)", r"C08\.lockset.*natively_read_only_array_left_alone"),
+    ("lockset-ignores-tracked-base", "c08_sets", "_utils/lock_management.py", "        and (arr.base is None or not array_is_tracked(arr.base))\n        for arr in arrs", "        for arr in arrs", r"C08\.lockset.*every_other_array_locked_once"),
     ("op-no-release-on-refused-result", "c_op", "tensor_base.py", "            if _mem.MEM_GUARD:\n                _mem.release_writeability_lock_on_op(_uniques_bases_then_arrs)\n            raise e", "            raise e", r"C08\.op\.failed_op_releases.*refused_result"),
     ("seed-cast-skipped-for-float-seeds", "c14_seed", "tensor_base.py", "            _grad = asarray(grad, dtype=self.dtype)\n", "            _grad = asarray(grad)\n            if _grad.size <= 1 or _grad.dtype.kind != \"f\":\n                _grad = asarray(grad, dtype=self.dtype)\n", r"I1\.dtype"),
     ("op-base-of-parent-var", "c_op", "tensor_base.py", "base = parent_var if parent_var.base is None else parent_var.base", "base = parent_var", r"C04\.base\.result_base"),
@@ -142,7 +144,7 @@ CANARIES = [
     ("inplace-except-narrowed", "c13_inplace", "tensor_base.py", "        except Exception as e:\n            graph.restore_old_graph()", "        except (ValueError, TypeError) as e:\n            graph.restore_old_graph()", r"C13\.inplace.*restore_old_graph_called_once"),
     ("inplace-no-restore", "c13_inplace", "tensor_base.py", "            graph.restore_old_graph()\n            self._grad, self._view_grad, self._base = _prior_state", "            self._grad, self._view_grad, self._base = _prior_state", r"C13\.inplace.*restore_old_graph_called_once"),
     ("inplace-prior-state-lost", "c13_inplace", "tensor_base.py", "            graph.restore_old_graph()\n            self._grad, self._view_grad, self._base = _prior_state\n", "            graph.restore_old_graph()\n", r"C13\.inplace.*prior_grad_view_grad_base_restored"),
-    ("inplace-swallows", "c13_inplace", "tensor_base.py", "            self._grad, self._view_grad, self._base = _prior_state\n            raise e", "            self._grad, self._view_grad, self._base = _prior_state\n            return self", r"C13\.inplace.*exception_propagates"),
+    ("inplace-swallows", "c13_inplace", "tensor_base.py", "                _owner._grad = _prior_owner_grad\n            raise e", "                _owner._grad = _prior_owner_grad\n            return self", r"C13\.inplace.*(exception_propagates|same_exception)"),
     ("inplace-restore-twice", "c13_inplace", "tensor_base.py", "            graph.restore_old_graph()\n            self._grad,", "            graph.restore_old_graph()\n            graph.restore_old_graph()\n            self._grad,", r"C13\.inplace.*restore_old_graph_called_once"),
     ("ufunc-dispatch-asarray-const", "c11_dispatch", "tensor_base.py", "        return t.data\n    return t\n", "        return t.data\n    return asarray(t)\n", r"C11\.dispatch.*tensors_unwrapped"),
     ("ufunc-dispatch-self-only", "c11_dispatch", "tensor_base.py", "            caster = _as_constant_array\n", "            if self.constant is False:\n                raise ValueError()\n            caster = lambda t: t.data if isinstance(t, Tensor) else t\n", r"C11\.dispatch.*nonconstant_operand_rejected"),
